@@ -21,10 +21,10 @@ import (
 )
 
 const (
-	sigConcat   = "composite-pk-printed-concatenation-collides:handled-as-same-key"
-	sigShadow   = "unique-check-consults-row-deleted-earlier-in-statement"
-	sigCI       = "ci-collation-key:compared-bytewise"
-	sigPrefix   = "prefix-key:prefix-cut-in-bytes-not-characters"
+	sigConcat = "composite-pk-printed-concatenation-collides:handled-as-same-key"
+	sigShadow = "unique-check-consults-row-deleted-earlier-in-statement"
+	sigCI     = "ci-collation-key:compared-bytewise"
+	sigPrefix = "prefix-key:prefix-cut-in-bytes-not-characters"
 )
 
 // engineCmp is how the engine's editor compares key parts (raw values, byte prefixes).
